@@ -62,6 +62,18 @@ for j in range(1, nm + 1):
     r1 = zmod.R(m, n, np.ones((1, 1)))
     b.check(abs(float(np.asarray(r1).ravel()[0]) - 1) < 1e-12 if not np.isscalar(r1) or r1 != 0 else False, {'j': j, 'R(1)': str(r1)})
 
+import math
+for (n_, m_) in ((20, 0), (21, 1), (22, 2), (24, 0), (25, 5), (30, 4)):
+    # radial polynomial of a high order against exact (Python integer) factorials, evaluated in exact rationals
+    from fractions import Fraction
+    with b.case({'high_order': (n_, m_)}):
+        pts = [Fraction(1), Fraction(1, 2), Fraction(9, 10)]
+        want = [float(sum(Fraction((-1) ** k * math.factorial(n_ - k), math.factorial(k) * math.factorial((n_ + m_) // 2 - k) * math.factorial((n_ - m_) // 2 - k)) * r ** (n_ - 2 * k)
+                          for k in range((n_ - m_) // 2 + 1))) for r in pts]
+        got = np.asarray(zmod.R(m_, n_, np.array([[float(r) for r in pts]]))).ravel()
+        # (loose tolerance: the alternating sum loses digits in double precision at these orders)
+        b.check(bool(np.allclose(got, want, rtol=1e-3, atol=1e-3)), {'high_order': (n_, m_), 'got': got.tolist(), 'expected': want})
+
 c = Bounded('zernike.zernike_coordinates::centroid_origin', 'circular / D-shaped / L-shaped masks on 9x9 ... 16x13 arrays of every parity, off-centre',
             'default origin is the mask centroid for every parity and position; rho = 1 at the farthest masked sample; zero outside the mask; support-only dependence')
 for shape in ((9, 9), (10, 10), (9, 12), (16, 13), (11, 8)):
